@@ -534,6 +534,21 @@ func init() {
 		}
 		return nil
 	}
+	// RawExtension.DeepCopyInto copies Raw byte-wise; JSON tokens are immutable.
+	externals["(*k8s.io/apimachinery/pkg/runtime.RawExtension).DeepCopyInto"] = func(fr *frame, args []value) value {
+		in, out := args[0].(*value), args[1].(*value)
+		src := (*in).(structure)
+		if obj, ok := src[1].(iface); ok && obj.t != nil {
+			panic(engineUnsupported{"RawExtension.DeepCopyInto with a non-nil Object"})
+		}
+		dst := make(structure, len(src))
+		copy(dst, src)
+		if raw, ok := src[0].([]value); ok && raw != nil {
+			dst[0] = append([]value{}, raw...)
+		}
+		*out = dst
+		return nil
+	}
 	externals["k8s.io/apimachinery/pkg/runtime.NewScheme"] = func(fr *frame, args []value) value { return (*value)(nil) }
 	externals["(*k8s.io/apimachinery/pkg/runtime.SchemeBuilder).AddToScheme"] = func(fr *frame, args []value) value { return iface{} }
 	externals["time.Now"] = func(fr *frame, args []value) value {
@@ -1216,6 +1231,9 @@ func deepEq(e *Explorer, a, b value) value {
 		if !ok || x.len() != y.len() || (x == nil) != (y == nil) {
 			return false
 		}
+		if x == nil {
+			return true // two nil maps (x.ents below would dereference nil)
+		}
 		var acc value = true
 		for _, en := range x.ents {
 			i := y.find(en.key)
@@ -1480,13 +1498,25 @@ func init() {
 	externals["github.com/cespare/xxhash/v2.Sum64"] = func(fr *frame, args []value) value {
 		return ex(fr).hashTerm(strTerm(bytesToString(args[0])), "0", "18446744073709551615")
 	}
-	// sha1+hex of (uid, patch): uninterpreted injective function rendered as text
+	// sha1+hex of (uid, patch): an injective uninterpreted function rendered as
+	// a fresh 40-character string (equal inputs <=> equal digests)
 	externals["metacontroller/pkg/controller/composite.controllerRevisionHash"] = func(fr *frame, args []value) value {
 		a := strTerm(bytesToString(args[0]))
 		b := strTerm(bytesToString(args[1]))
 		src := "(str.++ " + a + " \"|\" " + b + ")"
-		h := ex(fr).hashTerm(src, "0", "999999999999")
-		return symv{sort: 'S', term: "(str.++ \"h\" (str.from_int " + h.term + "))"}
+		e := ex(fr)
+		for i := 0; i+1 < len(e.digests); i += 2 {
+			if e.digests[i] == src {
+				return symv{sort: 'S', term: e.digests[i+1]}
+			}
+		}
+		h := e.fresh('S', "sha")
+		e.S.Send("(assert (= (str.len " + h.term + ") 40))")
+		for i := 0; i+1 < len(e.digests); i += 2 {
+			e.S.Send("(assert (= (= " + h.term + " " + e.digests[i+1] + ") (= " + src + " " + e.digests[i] + ")))")
+		}
+		e.digests = append(e.digests, src, h.term)
+		return h
 	}
 }
 
